@@ -404,6 +404,19 @@ func (g *gen) sop(inBody bool) *SOp {
 			return o
 		}
 	}
+	// a call whose NAMED result is assigned to a variable the callee also reaches through its pointer parameter
+	// (results are fresh cells of the callee since commit 1b5ab85: F04-20)
+	if g.chance(0.04) {
+		if o := g.callNamed(inBody); o != nil {
+			return o
+		}
+	}
+	// `l1, l2 = sw()` where sw returns its named results in the other order (two-phase since commit 8544122: F04-19)
+	if g.chance(0.03) {
+		if o := g.retSwap(inBody); o != nil {
+			return o
+		}
+	}
 	// receive into a location / a new variable (assigned like any value since commit 212dc2e: F08-7)
 	if g.chance(0.06) {
 		if g.chance(0.25) && !(inBody && len(g.e) > 9) {
@@ -766,6 +779,51 @@ func (g *gen) operand(dst *LExp, t *Type, ct *Type) *RExp {
 	return g.rexp(ct, "arg")
 }
 
+func (g *gen) callNamed(inBody bool) *SOp {
+	var ok []loc
+	for _, c := range g.locs(nil) {
+		if (c.t.K == "struct" || c.t.K == "array") && intIn(g, &LExp{K: "v", X: 0}, c.t) != nil {
+			ok = append(ok, c)
+		}
+	}
+	if len(ok) == 0 {
+		return nil
+	}
+	d := ok[g.pick(len(ok))]
+	o := &SOp{K: "cnm", L: d.l, P: d.l, T: d.t.Src, C: 100 + g.pick(100)}
+	if g.chance(0.3) {
+		// the address of another variable of the type, or of the destination through another expression
+		if p := g.loc(d.t); p != nil {
+			o.P = p.l
+		}
+	}
+	root := &LExp{K: "v", X: 0}
+	o.Sel, o.Sel2, o.Sel3 = intIn(g, root, d.t), intIn(g, root, d.t), intIn(g, root, d.t)
+	if g.chance(0.4) {
+		o.Sel3 = o.Sel // the pointer is read exactly where the result was just written
+	}
+	if g.chance(0.2) && !(inBody && len(g.e) > 9) {
+		o.IsDef, o.L = true, &LExp{K: "v", X: g.fresh()}
+	}
+	return o
+}
+
+func (g *gen) retSwap(inBody bool) *SOp {
+	t := ty([]string{"int", "int", "P", "[2]int", "Q"}[g.pick(5)])
+	o := &SOp{K: "rsw", T: t.Src, Vals: []Val{g.litVal(t), g.litVal(t)}}
+	if g.chance(0.3) && !(inBody && len(g.e) > 8) {
+		o.IsDef = true
+		o.Ls = []LExp{{K: "v", X: g.fresh()}, {K: "v", X: g.fresh()}}
+		return o
+	}
+	a, b := g.loc(t), g.loc(t)
+	if a == nil || b == nil {
+		return nil
+	}
+	o.Ls = []LExp{*a.l, *b.l}
+	return o
+}
+
 func (g *gen) clit(inBody bool) *SOp {
 	var ok []loc
 	for _, c := range g.locs(nil) {
@@ -828,21 +886,12 @@ func (g *gen) fillLit(o *SOp, dst *LExp, t *Type) *SOp {
 		}
 		o.Elems = append(o.Elems, LitElem{P: c.path, R: *r})
 	}
-	// a positional operand that contains an index of a pointer to an array below a selector or an address-of (`pa[i].f`,
-	// `&pa[i]`, explicit or implicit dereference) crashes the interpreter's compiler (open finding F04-21, source template
-	// with a class label): literals with such an operand are rendered keyed
-	var ptrIndex func(l *LExp) bool
-	ptrIndex = func(l *LExp) bool {
-		for ; l != nil && l.K != "v"; l = l.L {
-			if l.K == "x" && (l.L.K == "d" || lexpType(g.e, l.L).K == "ptr") {
-				return true
-			}
-		}
-		return false
-	}
+	// (positional operands of the form `pa[i].f` / `&pa[i]` crashed the compiler until commit 15ed387: F04-21; no restriction any more)
+	// a positional operand `(*pa)[lo:hi]` (slice of an explicitly dereferenced pointer to an array) is rejected by the
+	// interpreter's compiler (open finding F04-24, source template with a class label): such literals are rendered keyed
 	for i := range o.Elems {
 		for r := &o.Elems[i].R; r != nil; r = r.A {
-			if r.L != nil && ptrIndex(r.L) {
+			if r.K == "sl" && r.L != nil && r.L.K == "d" {
 				o.Keyed = true
 			}
 		}
